@@ -430,13 +430,9 @@ def parseMember : Nat → PS σ → PRes σ Ast
 def parseMemberLoop : Nat → Prim → List MOp → PS σ → PRes σ Ast
   | 0, _, _, ps => pFail T ps
   | f + 1, p, acc, ps =>
-    let primSp : Span := match p with
-      | .ident sp _ | .parens sp _ | .list sp _ | .map sp _ | .null sp | .int sp _ | .uint sp _
-      | .float sp _ | .str sp _ | .bytes sp _ | .bool sp _ | .fstr sp _ => sp
-    let opSp : MOp → Span := fun | .access sp .. => sp | .call sp _ => sp | .index sp _ => sp
     let done (ps : PS σ) : PRes σ Ast :=
       let chain := acc.reverse
-      .ok (.member (joinAll primSp (chain.map opSp)) p chain, ps)
+      .ok (.member (joinAll p.span (chain.map MOp.span)) p chain, ps)
     match pPeek T ps with
     | .error e => .error e
     | .ok (some (.dot, dsp), ps1) =>
